@@ -34,10 +34,11 @@ Definition ofailing {X} (f : X -> bool) (l : list X) : list nat :=
 (* ip per level 0..max, ln per level 0..max, cp entries (prefix, level, chars) *)
 Definition check_loader (G : omen) (ip : list (list ostr)) (ln : list (list nat))
            (cp : list (ostr * nat * ostr)) : bool :=
+  let cf := cp_fast G in
   Nat.eqb (length ip) (S (og_max_level G)) && Nat.eqb (length ln) (S (og_max_level G)) &&
   forallb (fun li => strs_eqb (ip_at G (fst li)) (snd li)) (indexed ip) &&
   forallb (fun li => olist_eqb Nat.eqb (ln_at G (fst li)) (snd li)) (indexed ln) &&
-  forallb (fun e => match e with (p, l, cs) => ostr_eqb (cp_at G p l) cs && ostr_eqb (cp_fast G p l) cs
+  forallb (fun e => match e with (p, l, cs) => ostr_eqb (cp_at G p l) cs && ostr_eqb (cf p l) cs
                                                && negb (is_nil cs) end) cp &&
   (* every line is accounted for *)
   Nat.eqb (list_sum (map (fun e => length (snd e)) cp))
